@@ -8,10 +8,11 @@ Part 1: the decision of the server path (`Model/Tsig.lean: serve`).
   * `axfr_deny_never`, `update_disabled_never`
   * `sig_is_last`             — `request.signature()` is the *last* record of the message
   * `refusal_table`           — which reply each failure produces
-  * `truncated_mac_rejected`, `mutation_rejected` — consequences of the MAC oracle assumption
 
 The other parts: `Proofs/C13Tbs.lean` (`tbs_injective`: which octets are authenticated),
-`Proofs/C13Reply.lean` (`reply_verifies`), `Proofs/C13Panic.lean` (arithmetic panic sites).
+`Proofs/C13Reply.lean` (`reply_verifies`, `request_verifies`, and the consequences of the MAC
+oracle assumption `truncated_mac_rejected`, `mutation_rejected`), `Proofs/C13Panic.lean` (panic
+sites, kernel-checked witnesses, non-vacuity examples).
 -/
 import HickoryVerif.Model.Tsig
 import HickoryVerif.Proofs.C13Span
@@ -184,6 +185,29 @@ theorem other_no_effect {cfg : ZoneCfg} {buf : Bytes} {now : Nat} {rdok : Bool}
     · simp only [Outcome.ok.injEq, Option.some.injEq] at h; subst h; rfl
     · split at h <;> first | (simp only [Outcome.ok.injEq, Option.some.injEq] at h; subst h; simp at hk) | simp at h
     · split at h <;> first | (simp only [Outcome.ok.injEq, Option.some.injEq] at h; subst h; simp at hk) | simp at h
+
+/-! ### which reply each outcome produces -/
+
+/-- `authorized_tsig` has exactly four outcomes: accepted (reply MAC'ed, error 0); stale (NOTAUTH,
+reply MAC'ed by the same key with error BADTIME); key known but name/algorithm/MAC length/MAC
+wrong or the message not walkable (NOTAUTH, *unsigned* TSIG with error BADSIG); key name unknown
+(NOTAUTH, *unsigned* TSIG with error BADKEY echoing the name). -/
+theorem refusal_table {cfg : ZoneCfg} {tsig : SigRec} {buf : Bytes} {now : Nat} {rdok : Bool}
+    {a : Auth} (h : authorizedTsig cfg tsig buf now rdok = .ok a) :
+    (a.rcode = 0 ∧ ∃ sg, a.resp = some (.signed sg tsig.data.mac 0)) ∨
+    (a.rcode = NOTAUTH ∧ ∃ sg, a.resp = some (.signed sg tsig.data.mac BADTIME)) ∨
+    (a.rcode = NOTAUTH ∧ ∃ sg, a.resp = some (.badSig sg)) ∨
+    (a.rcode = NOTAUTH ∧ a.resp = some (.unknownKey tsig.name)) := by
+  unfold authorizedTsig at h
+  split at h
+  · simp only [Outcome.ok.injEq] at h; subst h; exact .inr (.inr (.inr ⟨rfl, rfl⟩))
+  · rename_i sg _
+    split at h
+    · split at h
+      · simp only [Outcome.ok.injEq] at h; subst h; exact .inl ⟨rfl, sg, rfl⟩
+      · simp only [Outcome.ok.injEq] at h; subst h; exact .inr (.inl ⟨rfl, sg, rfl⟩)
+    · simp only [Outcome.ok.injEq] at h; subst h; exact .inr (.inr (.inl ⟨rfl, sg, rfl⟩))
+    · simp at h
 
 /-! ### `request.signature()` is the last record -/
 
